@@ -250,17 +250,24 @@ def removeL : List (Item ι V) → ι → List (Item ι V) × Option V
 end
 
 mutual
-/-- `Item::retain` / `Node::retain` / `Leaf::retain` (`f` on id and value; the code's `&mut V` access
-is not used by any caller to change the value and is not modelled). -/
-def Item.retain : Item ι V → (ι → V → Bool) → Item ι V
+/-- `HashMap::retain(|k, v| f(k, v))` where the closure gets `&mut V`: `f id v = none` drops the entry,
+`some v'` keeps it with the (possibly updated) value `v'`. -/
+def retainVals (f : ι → V → Option V) (vs : List (ι × V)) : List (ι × V) :=
+  vs.filterMap fun kv => (f kv.1 kv.2).map fun v' => (kv.1, v')
+
+mutual
+/-- `Item::retain` / `Node::retain` / `Leaf::retain`.  The closure `F: Fn(&str, &mut V) -> bool` both decides
+and may update the value in place (`HostMatcher` removes rules from the inner matcher this way), hence
+`f : id → V → Option V`. -/
+def Item.retain : Item ι V → (ι → V → Option V) → Item ι V
   | .empty ic, _ => .empty ic
   | .leaf rx vs, f =>
-    let vs' := vs.filter fun kv => f kv.1 kv.2
+    let vs' := retainVals f vs
     if vs'.isEmpty then .empty rx.ic else .leaf rx vs'
   | .node rx cs, f =>
     let children := retainL cs f
     if children.isEmpty then .empty rx.ic else collapse1 rx children
-def retainL : List (Item ι V) → (ι → V → Bool) → List (Item ι V)
+def retainL : List (Item ι V) → (ι → V → Option V) → List (Item ι V)
   | [], _ => []
   | c :: cs, f => keepNonEmpty (Item.retain c f) ++ retainL cs f
 end
@@ -382,14 +389,17 @@ def refRemoved : List (Entry ι V) → ι → Option V
   | [], _ => none
   | e :: rest, id => if e.id = id then some e.val else refRemoved rest id
 
-def refRetain (L : List (Entry ι V)) (f : ι → V → Bool) : List (Entry ι V) :=
-  L.filter fun e => f e.id e.val
+def refRetain (L : List (Entry ι V)) (f : ι → V → Option V) : List (Entry ι V) :=
+  L.filterMap fun e => (f e.id e.val).map fun v' => ⟨e.pat, e.id, v'⟩
+
+/-- A pure predicate as a `retain` closure. -/
+def keepIf (g : ι → V → Bool) : ι → V → Option V := fun id v => if g id v then some v else none
 
 /-- The operations of the property's histories. -/
 inductive Op (ι V : Type) where
   | insert (p : List Char) (id : ι) (v : V)
   | remove (id : ι)
-  | retain (f : ι → V → Bool)
+  | retain (f : ι → V → Option V)
   | cache (limit : Nat) (level : Option Nat)
 
 def refStep (L : List (Entry ι V)) : Op ι V → List (Entry ι V)
